@@ -112,4 +112,10 @@ PROPERTIES = {
         explanation="package orchestration (order of steps, reported files), module-level generators (init __all__, enum members), documented refusals; whole packages by an end-to-end bounded stand-in (import of every generated module)",
         assumptions=["that formatted modules import is autoflake/isort/black/pydantic's (assumed, sampled by the stand-in)"],
     ),
+    "C02": dict(
+        modules=["contracts.c02_documents", "contracts.c17_settings", "contracts.c03_arguments"],
+        bounded=[_bounded.lazy("contracts.e2e_documents", "bounded_documents")],
+        explanation="method-body templates (the bound query text is what is sent, under every renaming of the method locals), operation validation rule set; whole documents by an end-to-end bounded stand-in",
+        assumptions=["embedding of the text in Python source (splitlines, ast.unparse, regex rewrite, isort, black) is outside the solvers' fragment: bounded stand-in only"],
+    ),
 }
